@@ -169,6 +169,7 @@ static inline _Bool i_hdr(const CL *L) { return (L->head == NULL) == (L->tail ==
 #ifndef OB_WRAP
 #define CONTRACT_CL_getNextCounter \
   __CPROVER_requires(__CPROVER_is_fresh(self, sizeof(CL)) && NOWRAP(self)) \
+  __CPROVER_requires(UNLOCKED(self))   /* on wrap-around it locks the list mutex itself (std::mutex is not recursive): never call it with the mutex held */ \
   __CPROVER_assigns(self->currentCounter) \
   __CPROVER_ensures(__CPROVER_return_value == self->currentCounter && self->currentCounter == __CPROVER_old(self->currentCounter) + 1) \
   __CPROVER_ensures(__CPROVER_return_value != 0)
